@@ -670,6 +670,8 @@ def gen_fasta(rng, seeds, how):
         lines.append("AC")
     elif how == "one_token":
         lines.insert(rng.randrange(len(lines) + 1), ">lonely")
+    elif how == "empty":
+        lines = ["ACGT", "; no header line at all"]
     elif how == "unrelated":
         lines.insert(0, ">other unrelated_9")
         lines.insert(1, "; a comment")
@@ -944,13 +946,17 @@ def run(ctx):
         run_adjacency(ctx, {"op": "adjacency", "lines": lines, "mode": mode}, tags)
 
     # ---- uc
+    for lines, fasta in ((["# nothing but a comment"], ["ACGT"]), ([], []), (["# c"], None),
+                         (["S\t0\t1\t*\t*\t*\t*\t*\tf1_1\t*"], ["ACGT"]),
+                         (["L\t0\t1\t*\t*\t*\t*\t*\tlib9\t*"], [">otu lib9"])):
+        run_uc(ctx, {"op": "uc", "lines": lines, "fasta": fasta, "api": "_from_uc"}, ("uc", "fixed"))
     for i in range(700 if quick else max(700, 48000 // nw)):
         lines, seeds = gen_uc(rng)
         tags = ["uc"]
         fasta = None
         c = i % 10
         if c in (3, 4, 5, 6):
-            how = ["all", "missing", "dup", "later_wins", "one_token", "unrelated"][rng.randrange(6)] if c != 3 else "all"
+            how = ["all", "missing", "dup", "later_wins", "one_token", "unrelated", "empty"][rng.randrange(7)] if c != 3 else "all"
             fasta = gen_fasta(rng, seeds, how)
             tags.append("fasta-" + how)
         if c == 7:
